@@ -235,7 +235,7 @@ fn clamp_case(rep: &mut Report, v: [f32; 4]) {
 }
 
 pub fn run(cfg: &Cfg, rep: &mut Report) {
-    rep.rule = "exhaustive: all 2^24 8-bit RGB triples (round trip, grays) and all 2^24 8-bit HSL triples (totality); float: dense grid incl. every hue sextant boundary ±1 ulp plus random triples in [0,1]^3, both compositions; packing: 2^24 stratified RGBA words quick / all 2^32 thorough; float→8-bit clamping incl. NaN/±inf/out-of-range; 8-bit saturating add over all 256×511 (channel, delta) pairs; non-trivial = non-gray colour / non-zero delta; distinct by hash of the input".into();
+    rep.rule = "exhaustive: all 2^24 8-bit RGB triples (round trip, grays) and all 2^24 8-bit HSL triples (totality); float: dense grid incl. every hue sextant boundary ±1 ulp plus random triples in [0,1]^3 and triples over all magnitudes of [0,1] (zero, subnormal, log-uniform down to 1e-38, within ulps of 1), both compositions; packing: 2^24 stratified RGBA words quick / all 2^32 thorough; float→8-bit clamping incl. NaN/±inf/out-of-range; 8-bit saturating add over all 256×511 (channel, delta) pairs; non-trivial = non-gray colour / non-zero delta; distinct by hash of the input".into();
     rep.assumptions.push("hue is compared modulo 1 and with a tolerance scaled by 1/chroma (hue is ill-conditioned near gray); the f64 reference is reported, the verdict rests on the relations the property states".into());
 
     rep.pin("F6.float_hsl_sextant", {
@@ -253,6 +253,17 @@ pub fn run(cfg: &Cfg, rep: &mut Report) {
         rgbf_case(&mut r2, [0.0, 0.0, 0.015384615]);
         hslf_case(&mut r2, [0.0, 1.0, 0.083333336]);
         hue_wrap_case(&mut r2, 1.0, 0.083333336);
+        match r2.violations.values().next() {
+            None => Ok(()),
+            Some(v) => Err(v.firsts[0].detail.clone()),
+        }
+    });
+
+    rep.pin("F17.dark_gray_saturation", {
+        let mut r2 = Report::new();
+        rgbf_case(&mut r2, [1e-10, 1e-10, 1e-10]);
+        rgbf_case(&mut r2, [3.9655365e-25, 3.9655365e-25, 3.9655365e-25]);
+        rgbf_case(&mut r2, [1e-45, 1e-45, 1e-45]);
         match r2.violations.values().next() {
             None => Ok(()),
             Some(v) => Err(v.firsts[0].detail.clone()),
@@ -349,6 +360,41 @@ pub fn run(cfg: &Cfg, rep: &mut Report) {
     // Stream 4: packing
     let (blocks, per) = if cfg.quick() { (1u64 << 12, 1u64 << 12) } else { (1 << 20, 1 << 12) };
     let full = !cfg.quick();
+    // Stream 9: every magnitude of [0,1], not only its bulk: zero, subnormal,
+    // log-uniform tiny, ordinary, within a few ulps of 1, exactly 1
+    rep.run_stream(cfg, 9, "f32_magnitudes", cfg.n(600_000, 60_000_000), |rng, _, rep| {
+        let mut ch = |rng: &mut Rng| -> f32 {
+            match rng.below(8) {
+                0 => 0.0,
+                1 => f32::from_bits(1 + rng.below(0x7f_ffff) as u32), // subnormal
+                2 | 3 => rng.log_f32(1e-38, 1.0),
+                4 => 1.0 - rng.log_f32(6e-8, 1e-2),
+                5 => 1.0,
+                6 => f32::from_bits(0x3f80_0000 - 1 - rng.below(4) as u32),
+                _ => rng.f32_in(0.0, 1.0),
+            }
+        };
+        let c = [ch(rng), ch(rng), ch(rng)];
+        let c = match rng.below(5) {
+            0 => [c[0], c[0], c[0]],
+            1 => [c[0], c[1], c[1]],
+            2 => [c[0], c[0], c[2]],
+            _ => c,
+        };
+        let mut hs = Hasher::new();
+        hs.f32s(&c);
+        rep.case(hs.get(), !(c[0] == c[1] && c[1] == c[2]));
+        if c[0] == c[1] && c[1] == c[2] {
+            rep.count("f32_magnitudes.grays");
+            if c[0] < 1e-6 && c[0] > 0.0 {
+                rep.count("f32_magnitudes.grays_darker_than_1e-6");
+            }
+        }
+        rgbf_case(rep, c);
+        hslf_case(rep, c);
+        rep.add("f32_conversions", 2);
+    });
+
     rep.run_stream(cfg, 4, "packing", blocks, |rng, i, rep| {
         for k in 0..per {
             let w = if full { ((i << 12) | k) as u32 } else { (rng.u64() as u32 & 0xFFFF_F000) ^ (((i << 12) | k) as u32).rotate_left(9) };
@@ -419,6 +465,7 @@ pub fn run(cfg: &Cfg, rep: &mut Report) {
     rep.floor("alpha_path_checks", 500_000);
     rep.floor("packing_words", 1 << 24);
     rep.floor("saturating_add_pairs", 256 * 511);
+    rep.floor("f32_magnitudes.grays_darker_than_1e-6", 10_000);
     let _ = hsla(0u8, 0, 0, 0);
 }
 
